@@ -88,8 +88,18 @@ def api(call, fn, *a, **kw):
 #          half-way, the exception is swallowed, and the object is then used as if nothing had happened
 #   knobs: seed -> every upper-case integer tuning constant (>= 5, named like a limit / size / cache / threshold) found in the rtamt modules (cache sizes, scan limits,
 #          pending-queue caps ...) is set to a small value for the run, so that slow paths and evictions run on small inputs
+#   reuse_buffers: True -> the caller keeps ONE list object per variable (dense online) / one input list (discrete online) and
+#          refills it in place for every update() (buf[:] = new samples): what it handed over earlier changes under the monitor
+#   idem_config: seed -> before a drawn update() of an online monitor the application issues its configuration calls again with
+#          the very same values (set_sampling_period(p, u, tol), spec.unit = u): nothing may change
+#   explained_before: seed -> a discrete-time offline object first evaluates another log and is asked to explain() it
+#   reconf: seed -> a discrete-time offline object was first configured with a k-fold sampling period and used on another log,
+#          then re-configured to the configuration of the scenario (the 'prior' mechanism of build(), for every check)
+#   surplus_named: seed -> the data set of a discrete-time offline evaluation carries further columns that have the names of
+#          the assertions / sub-specifications (a table the results were written back to, a CSV with output columns)
 
 ENV = {}
+ENV_FIRED = {}
 FAILED_USES = [0]
 UNIT_REWRITES = [0]
 COHOSTED = [0]
@@ -129,6 +139,7 @@ def set_env(env):
     FAILED_USES[0] = 0
     UNIT_REWRITES[0] = 0
     COHOSTED[0] = 0
+    ENV_FIRED.clear()
     undo = []
     if ENV.get('knobs') is not None:
         import random
@@ -324,7 +335,24 @@ def new_spec(desc):
     for s in desc.get('subspecs', []):
         api('add_sub_spec', spec.add_sub_spec, s)
     spec.spec = desc['spec']
+    spec._verif_cfg = {'unit': desc.get('unit'), 'sampling': desc.get('sampling')}     # harness bookkeeping (idem_config)
+    spec._verif_names = _defined_names(desc)
+    spec._verif_floats = [v for v, ty in desc.get('vars', []) if ty == 'float']
+    spec._verif_cls = desc['cls']
     return spec
+
+
+def _defined_names(desc):
+    import re
+    names = []
+    for t in [desc['spec']] + list(desc.get('subspecs') or []):
+        t = re.sub(r'/\*.*?\*/', ' ', t, flags=re.S)
+        t = re.sub(r'//[^\n]*', ' ', t)
+        for stmt in t.split(';'):
+            m = re.match(r'\s*([A-Za-z_][A-Za-z_0-9]*)\s*=[^=]', stmt)
+            if m and m.group(1) not in names:
+                names.append(m.group(1))
+    return names
 
 
 def apply_config(spec, old, new):
@@ -332,10 +360,14 @@ def apply_config(spec, old, new):
     only what differs is touched, like an application that changes one setting"""
     ou, nu = old.get('unit') or 's', new.get('unit') or 's'
     osamp, nsamp = list(old.get('sampling') or [1, 's', 0.1]), list(new.get('sampling') or [1, 's', 0.1])
+    cfg = dict(getattr(spec, '_verif_cfg', None) or {})
     if ou != nu:
         spec.unit = nu
+        cfg['unit'] = nu
     if osamp != nsamp and hasattr(spec, 'set_sampling_period'):
         api('set_sampling_period', spec.set_sampling_period, nsamp[0], nsamp[1], nsamp[2])
+        cfg['sampling'] = nsamp
+    spec._verif_cfg = cfg      # (only what was touched: the object may have been re-written by a unit-notation environment)
 
 
 def _failed_use(spec, desc):
@@ -385,17 +417,68 @@ def _do_failed_use(spec, times=None, signals=None):
 
 
 def build(desc):
-    spec = _build(desc)
-    _failed_use(spec, desc)
+    if ENV.get('reconf') is not None and not desc.get('prior') and desc['cls'] == 'dt_off' and not desc.get('pastify') \
+            and all(ty == 'float' for _, ty in desc.get('vars', [])) and desc.get('vars'):
+        # run environment 'reconf': the object has a history under a k-fold sampling period (used on another log), then it is
+        # re-configured to the configuration of the scenario; it must behave like a fresh object
+        import random
+        qrng = random.Random(ENV['reconf'])
+        p, u, tol = desc.get('sampling') or [1, 's', 0.1]
+        k = qrng.choice([2, 3, 10])
+        n = qrng.randint(2, 6)
+        lat = [x * 0.5 for x in range(-8, 9)]
+        desc = dict(desc, prior={'unit': desc.get('unit'), 'sampling': [p * k, u, tol], 'times': [i * k for i in range(n)],
+                                 'data': dict((v, [lat[qrng.randrange(len(lat))] for _ in range(n)]) for v, _ in desc['vars'])})
+        ENV_FIRED['reconf'] = 1
     if ENV.get('cohost') is not None and not desc.get('prior'):
         # run environment 'cohost': a second object of the same requirement lives in the same process and is fed the same calls
-        # with other sample values, right before and right after every call of the object under observation
+        # with other sample values, right before and right after every call of the object under observation. Its declared
+        # constants have OTHER values, and it is constructed and declared between the construction and the parse() of the
+        # observed object (configure A, configure B, parse A, parse B: a table shared between objects is polluted in between)
+        spec = new_spec(desc)
+        twin = None
         try:
-            spec._verif_twin = _build(desc)
-            COHOSTED[0] += 1
+            twin = new_spec(dict(desc, consts=[[c, ty, _other_const(val)] for c, ty, val in desc.get('consts', [])]))
         except (ApiCrash, NumericOverflow):
             pass
+        api('parse', spec.parse)
+        if desc.get('pastify'):
+            api('pastify', spec.pastify)
+        _failed_use(spec, desc)
+        if twin is not None:
+            try:
+                api('parse', twin.parse)
+                if desc.get('pastify'):
+                    api('pastify', twin.pastify)
+                spec._verif_twin = twin
+                COHOSTED[0] += 1
+            except (ApiCrash, NumericOverflow):
+                pass
+        return spec
+    spec = _build(desc)
+    _failed_use(spec, desc)
     return spec
+
+
+def build_phased(descs):
+    """an application that configures all its objects first (construct, declare variables and constants, assign the text)
+    and parses them afterwards: configure A, configure B, parse A, parse B"""
+    specs = [new_spec(d) for d in descs]
+    for spec, d in zip(specs, descs):
+        api('parse', spec.parse)
+        if d.get('pastify'):
+            api('pastify', spec.pastify)
+        _failed_use(spec, d)
+    return specs
+
+
+def _other_const(val):
+    try:
+        if isinstance(val, str):
+            return repr(float(val) + 1.0)
+        return val + 1
+    except Exception:  # noqa
+        return val
 
 
 def _other(x):
@@ -511,6 +594,14 @@ def dt_evaluate(spec, times, data, order=None):
         data = dict((v, [_wrap(spec, v, x) for x in data[v]]) for v in data)
     ds = dt_dataset(times, data, order)
     _do_failed_use(spec, times=ds['time'])
+    _do_explained_before(spec, ds['time'])
+    if ENV.get('surplus_named') is not None and not getattr(spec, '_verif_structs', None):
+        import random
+        srng = random.Random(ENV['surplus_named'])
+        for nm in getattr(spec, '_verif_names', []):
+            if nm not in ds:
+                ds[nm] = [srng.choice([-7.5, 0.0, 3.25, 99.0]) for _ in ds['time']]
+                ENV_FIRED['surplus_named'] = 1
     twin_ds = lambda: dict((k, ([_other(x) for x in c] if k != 'time' else list(c))) for k, c in ds.items())
     if not getattr(spec, '_verif_structs', None):
         _twin(spec, lambda tw: api('evaluate', tw.evaluate, twin_ds()))
@@ -520,11 +611,59 @@ def dt_evaluate(spec, times, data, order=None):
     return out
 
 
+def _do_explained_before(spec, times):
+    if ENV.get('explained_before') is None or getattr(spec, '_verif_explained', False) or not hasattr(spec, 'explain') \
+            or getattr(spec, '_verif_cls', None) not in ('dt', 'dt_off') or getattr(spec, '_verif_structs', None):
+        return
+    spec._verif_explained = True
+    vs = getattr(spec, '_verif_floats', [])
+    if not vs:
+        return
+    import random
+    xrng = random.Random(ENV['explained_before'])
+    axis = list(times) if (len(times) >= 1 and xrng.random() < 0.5) else list(range(xrng.randint(2, 7)))
+    lat = [x * 0.5 for x in range(-8, 9)]
+    try:
+        api('evaluate', spec.evaluate, dt_dataset(axis, dict((v, [lat[xrng.randrange(len(lat))] for _ in axis]) for v in vs)))
+        api('explain', spec.explain)
+        ENV_FIRED['explained_before'] = 1
+    except (ApiCrash, NumericOverflow):
+        pass
+
+
+def _idem_config(spec):
+    """run environment 'idem_config': before one drawn update() the application re-issues its configuration with the same values"""
+    if ENV.get('idem_config') is None:
+        return
+    n = getattr(spec, '_verif_nupd', 0)
+    spec._verif_nupd = n + 1
+    if n != 1 + ENV['idem_config'] % 6:
+        return
+    cfg = getattr(spec, '_verif_cfg', None) or {}
+    how = (ENV['idem_config'] // 6) % 3
+    if how in (0, 2) and hasattr(spec, 'set_sampling_period') and getattr(spec, '_verif_cls', '') in ('dt', 'dt_on'):
+        p, u, tol = cfg.get('sampling') or [1, 's', 0.1]
+        api('set_sampling_period', spec.set_sampling_period, p, u, tol)
+        ENV_FIRED['idem_config'] = 1
+    if how in (1, 2):
+        spec.unit = cfg.get('unit') or 's'
+        ENV_FIRED['idem_config'] = 1
+
+
 def dt_update(spec, t, inputs):
     if getattr(spec, '_verif_structs', None):
         inputs = [(v, _wrap(spec, v, x)) for v, x in inputs]
     else:
         _twin(spec, lambda tw: api('update', tw.update, t, [(v, _other(x)) for v, x in inputs]))
+    _idem_config(spec)
+    if ENV.get('reuse_buffers'):
+        buf = getattr(spec, '_verif_inbuf', None)
+        if buf is None:
+            buf = spec._verif_inbuf = []
+        else:
+            ENV_FIRED['reuse_buffers'] = 1
+        buf[:] = list(inputs)
+        inputs = buf
     return api('update', spec.update, t, inputs)
 
 
@@ -553,7 +692,22 @@ def ct_update(spec, batches, order=None):
             args = keep
     if not getattr(spec, '_verif_structs', None):
         _twin(spec, lambda tw: api('update', tw.update, *[[a[0], [[q[0], _other(q[1])] for q in a[1]]] for a in args]))
+    _idem_config(spec)
+    if ENV.get('reuse_buffers'):
+        bufs = getattr(spec, '_verif_bufs', None)
+        if bufs is None:
+            bufs = spec._verif_bufs = {}
+        for a in args:
+            b = bufs.get(a[0])
+            if b is None:
+                b = bufs[a[0]] = []
+            else:
+                ENV_FIRED['reuse_buffers'] = 1
+            b[:] = a[1]
+            a[1] = b
     out = api('update', spec.update, *args)
+    if ENV.get('reuse_buffers'):
+        out = copy.deepcopy(out)     # what was returned is observed NOW: `out = a` hands the caller's own buffer back
     if ENV.get('omit_idle'):
         seen.update(a[0] for a in args)       # (only an update the monitor accepted counts as "supplied before")
     return out
